@@ -303,7 +303,7 @@ def run_shard(spec, rng, ctx):
             n += 1
         ctx.counters["exhaustive_scripts:" + manager] += n
     ctx.counters["exhaustive_complete_shards"] += 1
-    while time.time() < end:
+    while C.now() < end:
         judge(gen_script(rng, rng.choice(["sums", "contents"])), ctx)
 
 
